@@ -341,7 +341,7 @@ def run(ctx: vlib.Ctx, n_schemas: int, per_schema: int):
     if not br.ok:
         return cases, None, "model does not build: " + (br.error or "")
     files = emit(cases)
-    res = vlib.coq_eval_many([(f"c05_xtyped_{i}", txt) for i, txt in enumerate(files)], timeout=900, jobs=6)
+    res = CT.eval_robust([(f"c05_xtyped_{i}", txt) for i, txt in enumerate(files)], timeout=900, jobs=6)
     bad, shard = [], 120
     for n, (ok, out) in enumerate(res):
         if not ok:
